@@ -491,3 +491,36 @@ def fan_retry_inner_retry(which, kind: int, nfail: int, c0: int, c1: int, c2: in
 
 
 SCN["fan_retry_inner_retry"] = (["0 <= kind < 2 and 0 <= nfail <= 4"], 600, 1800, ("quick", "thorough"))
+
+
+def nested_inner_catch(which, mode: int, q2: int, c0: int, c1: int, c2: int, c3: int, c4: int, c5: int, c6: int, c7: int, c8: int, c9: int, c10: int, c11: int):
+    """Outer Parallel P = [inner Parallel Q = [Task fq1 (fails), Q2 = Wait 5 s (q2 == 0) / Task fq2 (q2 == 1)], Task fo].
+    Q handles its own failure with a Catch (mode 0) or a Retry (mode 1, second attempt succeeds): only Q's branches
+    are cut short - the outer sibling fo, which is not part of the failed Parallel state, must run on undisturbed."""
+    Q2 = {"Type": "Wait", "Seconds": 5, "End": True} if q2 == 0 else task("fq2", End=True)
+    inner = {"Type": "Parallel", "Next": "QR", "Branches": [
+        {"StartAt": "Q1", "States": {"Q1": task("fq1", End=True)}},
+        {"StartAt": "Q2", "States": {"Q2": Q2}}]}
+    if mode == 0:
+        inner["Catch"] = [{"ErrorEquals": ["States.ALL"], "ResultPath": "$.err", "Next": "QR"}]
+    else:
+        inner["Retry"] = [{"ErrorEquals": ["Boom"], "IntervalSeconds": 1, "MaxAttempts": 1, "BackoffRate": 1.0}]
+    asl = {"StartAt": "P", "States": {"P": {"Type": "Parallel", "End": True, "Branches": [
+        {"StartAt": "Q", "States": {"Q": inner, "QR": {"Type": "Pass", "Result": "qr", "End": True}}},
+        {"StartAt": "O", "States": {"O": task("fo", End=True)}}]}}}
+    n = [0]
+
+    def wq1(req):
+        n[0] += 1
+        if n[0] == 1:
+            return {"errorType": "Boom", "errorMessage": "q1"}
+        return {"ok": "fq1"}
+    expect = ("SUCCEEDED", ["qr", {"ok": "fo", "in": {"x": 1}}])
+    workers = {"fq1": wq1, "fo": worker(False, "", "fo")}
+    if q2 == 1:
+        workers["fq2"] = worker(False, "", "fq2")
+    return s2.run_scenario(asl, {"x": 1}, [c0, c1, c2, c3, c4, c5, c6, c7, c8, c9, c10, c11], workers,
+                           which, "STANDARD", expect, max_steps=200, fast=True)
+
+
+SCN["nested_inner_catch"] = (["0 <= mode < 2 and 0 <= q2 < 2"], 900, 3000, ("quick", "thorough"))
